@@ -231,8 +231,12 @@ def rule_other_caches(ctx):
 def rule_worker_capacity(ctx):
     """every worker gets the configured capacity and the shared configuration unchanged: connections within the configured limits never evict each other"""
     from . import _workers as W
+    from . import _argswap as AS
     for crate, fam in (("huginn_net_tcp", "tcp"), ("huginn_net_http", "http"), ("huginn_net_tls", "tls")):
         W.uniform_workers(ctx, ctx.program, crate, fam, "W.R2")
+    # the pool is built with each configured limit in its own position (connection capacity is not the queue length)
+    AS.swapped_arguments(ctx, ctx.program, "W.R1", ("huginn_net_tcp", "huginn_net_http", "huginn_net_tls", "huginn_net"),
+                         only_params=("max_connections", "queue_size", "batch_size", "timeout_ms", "num_workers"))
 
 
 def rule_capture_loops(ctx):
